@@ -217,6 +217,10 @@ WellFormed(it, pk, mn, bn, seen, xm) ==
       \* shapes that would not be programs
       /\ (it.op = "range" => (it.k # "-" \/ it.v # "-"))
       /\ (stack = << >> => ~xm)                                    \* the shadow main comes last
+      \* the shadow main begins at the first top-level STATEMENT: a leading var/const/type would
+      \* still be a package-level declaration (parser.go: parseFile / ShadowEntry)
+      /\ (TopPar # 0 /\ it.op \in {"lvar", "lconst", "ltype"} /\ items[TopPar].op = "xmain"
+            => \E j \in 1..Len(items) : items[j].par = TopPar /\ items[j].op \notin {"lvar", "lconst", "ltype"})
 
 \* candidate items at the current point
 PkgCands == { it \in
